@@ -23,7 +23,7 @@ def main(tier, seed):
     rpts = [M.real_point(tf, p) for p in univ]
     vocab, raising = qtie.vocabulary()
     c = qtie.core(vocab)
-    qs = list(vocab) + raising + qtie.depth1(c)
+    qs = list(vocab) + raising + qtie.depth1(c) + qtie.twin_compounds()
     n_exh = len(qs)
     n_rand = 1500 if tier == "quick" else 40000
     for _ in range(n_rand):
@@ -59,6 +59,8 @@ def main(tier, seed):
                                        "built_with": [x for x in qs[:400] if x[0] == "S" and q[0] == "S" and x[1] == q[1] and x[2][:1] == q[2][:1]][:40],
                                        "note": "all queries are built from shared builder objects before any is evaluated (built_with: the simple queries on the same "
                                                "attribute and first key, built in this order from the same builders)"})
+    ebad, edited_checked = qtie.edited_point_check(tf, qs[:n_exh], built[:n_exh], univ)
+    direct_bad += [dict(x, point=x["point_after_edit"], implementation=x["same_object_after"], documented_meaning=x["fresh_equal_query_after"]) for x in ebad]
     shard = 600
     files = []
     for i in range(0, len(qs), shard):
@@ -88,6 +90,7 @@ def main(tier, seed):
                       "what_no_longer_checks": "correspondence Query.eval (theorems C09_*) vs SimpleQuery/CompoundQuery.__call__",
                       "disagreeing_queries": len(mism)}, no_input=True)
     ck.cov = {
+        "same_object_after_in_place_edit_checked": edited_checked,
         "translator": {"source": "tinyflux/queries.py: every place a query object gets its _hash key, its test operator, its == -> coq/gen/QueryGen.v (regenerated on this run)",
                        "refused": refused, "equivalence_theorems": "enc_eqb, gen_qhash_eq, gen_qeq_eq, gen_tables (proofs/QueryGenP.v)"},
         "obligations": b["obligations"], "discharged": b["discharged"],
